@@ -656,3 +656,113 @@ Proof.
     destruct (lookup (fst inc) (m_parsed m)) as [c|], (lookup (fst inc) (m_parsed m')) as [c'|];
       try contradiction; auto.
 Qed.
+
+(* ------------------------------------------------------------------------------------------ *)
+(** * The HTML index end to end: transitiveIncludesRec with any iteration orders, then a range
+      over the resulting map in any order, then sort.Sort(Modules) *)
+
+(** the entries of the Go map that a [store] history represents *)
+Lemma dedup_keys_in {V} (m : gomap V) k v : In (k, v) (dedup_keys m) <-> lookup k m = Some v.
+Proof.
+  induction m as [|[k0 v0] m IH]; cbn [dedup_keys lookup].
+  - split; [intros []|discriminate].
+  - destruct (str_eqb k k0) eqn:E.
+    + apply str_eqb_eq in E. subst k0. split.
+      * intros [H | H]; [congruence|].
+        apply filter_In in H as [_ H]. cbn [fst] in H. rewrite str_eqb_refl in H. discriminate.
+      * intros H. left. congruence.
+    + split.
+      * intros [H | H]; [injection H as -> ->; rewrite str_eqb_refl in E; discriminate|].
+        apply filter_In in H as [H _]. now apply IH.
+      * intros H. right. apply filter_In. split; [now apply IH|]. cbn [fst]. now rewrite E.
+Qed.
+
+Lemma nodup_map_filter {A B} (f : A -> B) (p : A -> bool) (l : list A) :
+  NoDup (map f l) -> NoDup (map f (filter p l)).
+Proof.
+  induction l as [|x l IH]; cbn [map filter]; intros H; [constructor|].
+  inversion H as [|? ? Hnotin Hnd]; subst.
+  destruct (p x); cbn [map]; [|now apply IH].
+  constructor; [|now apply IH].
+  intros Hin. apply Hnotin. apply in_map_iff in Hin as (y & Ey & Hy).
+  apply filter_In in Hy as [Hy _]. apply in_map_iff. eauto.
+Qed.
+
+Lemma dedup_keys_nodup {V} (m : gomap V) : NoDup (map fst (dedup_keys m)).
+Proof.
+  induction m as [|[k0 v0] m IH]; cbn [dedup_keys map fst]; constructor.
+  - intros Hin. apply in_map_iff in Hin as ([k v] & Ek & Hin). cbn [fst] in Ek. subst k.
+    apply filter_In in Hin as [_ H]. cbn [fst] in H. rewrite str_eqb_refl in H. discriminate.
+  - now apply nodup_map_filter.
+Qed.
+
+Lemma dedup_keys_equiv_perm {V} (m1 m2 : gomap V) :
+  map_equiv m1 m2 -> Permutation (dedup_keys m1) (dedup_keys m2).
+Proof.
+  intros He. apply NoDup_Permutation.
+  - eapply NoDup_map_inv. apply dedup_keys_nodup.
+  - eapply NoDup_map_inv. apply dedup_keys_nodup.
+  - intros [k v]. rewrite !dedup_keys_in, (He k). reflexivity.
+Qed.
+
+(** everything transitiveIncludesRec stores is keyed by the module's own file *)
+Lemma trec_any_keyed fuel m out :
+  trec_any fuel m [] out -> keyed_by_file (dedup_keys out).
+Proof.
+  intros Hrun [k v] Hin. cbn [fst snd]. apply dedup_keys_in in Hin.
+  destruct (sub_dec fuel m k) as [(y & Hy & Hk) | Hno].
+  - (* some module below m has file k: the map holds one of them, which has that file *)
+    assert (Hv : exists y', sub fuel m y' /\ m_file y' = k /\ v = y').
+    { clear y Hy Hk.
+      (* generalise over the accumulator: every value bound to k is a module of the subtree with file k,
+         or was already in the accumulator *)
+      assert (G : forall fuel m acc out, trec_any fuel m acc out -> forall v, lookup k out = Some v ->
+                  (exists y', sub fuel m y' /\ m_file y' = k /\ v = y') \/ lookup k acc = Some v).
+      { clear. induction fuel as [|f IH]; intros m acc out Hrun v Hl; [destruct Hrun|].
+        cbn [trec_any] in Hrun. destruct Hrun as (order & Hperm & Hch).
+        assert (Hc : forall l a out, chain (trec_any f) l a out -> (forall e, In e l -> In e order) ->
+                      lookup k out = Some v ->
+                      (exists e y', In e order /\ sub f (snd e) y' /\ m_file y' = k /\ v = y') \/ lookup k a = Some v).
+        { induction l as [|e l IHl]; intros a out' Hch' Hsub Hl'; cbn [chain] in Hch'.
+          - subst. now right.
+          - destruct Hch' as (a1 & Hr & Hch').
+            destruct (IHl a1 out' Hch' (fun e' He' => Hsub e' (or_intror He')) Hl') as [H | H]; [now left|].
+            destruct (IH (snd e) a a1 Hr v H) as [(y' & Hy' & Hk' & Ev) | H2]; [|now right].
+            left. exists e, y'. repeat split; auto. apply Hsub. now left. }
+        destruct (Hc order _ out Hch (fun e He => He) Hl) as [(e & y' & He & Hy' & Hk' & Ev) | H].
+        - left. exists y'. repeat split; auto. cbn [sub]. right. exists e. split; [|exact Hy'].
+          eapply Permutation_in; [symmetry; exact Hperm|exact He].
+        - destruct (str_eqb k (m_file m)) eqn:E.
+          + apply str_eqb_eq in E. subst k. rewrite lookup_store_eq in H. injection H as <-.
+            left. exists m. repeat split; auto. cbn [sub]. now left.
+          + apply str_eqb_neq in E. rewrite lookup_store_neq in H by exact E. now right. }
+      destruct (G fuel m [] out Hrun v Hin) as [H | H]; [exact H|discriminate]. }
+    destruct Hv as (y' & _ & Hk' & ->). now symmetry.
+  - rewrite (trec_any_miss k fuel m [] out Hrun Hno) in Hin. discriminate.
+Qed.
+
+Theorem html_index_order_free fuel m out1 out2 iter1 iter2 :
+  file_functional fuel m ->
+  trec_any fuel m [] out1 -> trec_any fuel m [] out2 ->
+  Permutation (dedup_keys out1) iter1 -> Permutation (dedup_keys out2) iter2 ->
+  transitive_includes_from iter1 = transitive_includes_from iter2.
+Proof.
+  intros Hfun H1 H2 P1 P2.
+  pose proof (rec_insert_order_free fuel m [] out1 out2 Hfun H1 H2) as He.
+  pose proof (dedup_keys_equiv_perm out1 out2 He) as Pd.
+  apply html_modules_order_free.
+  - intros e He1. apply (trec_any_keyed fuel m out1 H1). eapply Permutation_in; [symmetry; exact P1|exact He1].
+  - eapply Permutation_NoDup; [apply Permutation_map; exact P1|apply dedup_keys_nodup].
+  - rewrite <- P1, <- P2. exact Pd.
+Qed.
+
+(** the executable [transitive_includes] is one of these executions *)
+Corollary html_index_is_transitive_includes fuel m out iter :
+  file_functional fuel m -> fits fuel m ->
+  trec_any fuel m [] out -> Permutation (dedup_keys out) iter ->
+  transitive_includes_from iter = transitive_includes fuel m.
+Proof.
+  intros Hfun Hfit Hrun Hp. unfold transitive_includes.
+  exact (html_index_order_free fuel m out (trec fuel m []) iter (dedup_keys (trec fuel m [])) Hfun Hrun
+           (trec_is_an_execution fuel m [] Hfit) Hp (Permutation_refl _)).
+Qed.
